@@ -21,11 +21,17 @@ PC_OF = {("acq", "l1"): {"start"}, ("load", "buf"): {"read"}, ("write", "buf"): 
 
 
 def subject_arrays(k):
+    """(prediction, reference) of subject number k; subject 3 has an empty prediction (missed lesion: `prec`
+    uncomputable -> empty cell in its row), subject 4 an empty reference (false alarm: `rec` uncomputable)"""
     a = np.zeros((4, 4), np.uint8)
     a[0:2, 0:2] = 1
     b = a.copy()
     b[0, k % 2] = 0 if k % 3 else 1
     b[3, k % 4] = 2
+    if k == 3:
+        return np.zeros_like(a), b
+    if k == 4:
+        return a, np.zeros_like(b)
     return a, b
 
 
@@ -233,7 +239,7 @@ def fork_run(ctx, n_proc, names, delay, src):
 def rand_case(ctx, tag, i):
     rng = ctx.rng
     N = rng.choice([2, 2, 3, 3, 4])
-    pool = ["s1", "s2", "s 3", "s-4"][:rng.randint(1, 3)]
+    pool = rng.sample(["s1", "s2", "s 3", "s-4", "s1 ", " s2", "S1"], rng.randint(1, 4))
     names, kinds = [], []
     for _ in range(N):
         if rng.random() < 0.2 and "eval" in kinds:
